@@ -125,7 +125,9 @@ class MoveImportsToTypeCheckingBlockVisitor(ContextAwareTransformer):
     def _remove_typing_module(import_item_list: List[ImportItem]) -> List[ImportItem]:
         ret: List[ImportItem] = []
         for import_item in import_item_list:
-            if import_item.module_name != "typing":
+            # mypy_extensions.TypedDict is the base class of the TypedDict
+            # classes the stub adds at module level: it is needed at runtime.
+            if import_item.module_name not in ("typing", "mypy_extensions"):
                 ret.append(import_item)
         return ret
 
